@@ -362,6 +362,53 @@ def fit(inp):
         return r
 
 
+# ------------------------------------------------------------------ every class that offers to_file / from_file
+def gen_classes(tier, seed):
+    for k in ("ModelFunctionBase", "HistModelFunction", "IndexedModelFunction", "ModelFunctionFormatter", "ParameterFormatter", "CostFunction_Chi2", "CostFunction_NegLogLikelihood", "CostFunction-user", "FunctionFormatter"):
+        yield {"class": k}
+
+
+@R.oracle("every_saveable_class_round_trips", gen_classes, obligation="FileIOMixin.to_file / from_file")
+def classes(inp):
+    k = inp["class"]
+    bm, fm, cm = imp("kafe2.fit._base.model"), imp("kafe2.fit._base.format"), imp("kafe2.fit._base.cost")
+    if k == "ModelFunctionBase":
+        o = bm.ModelFunctionBase(line)
+    elif k == "HistModelFunction":
+        o = imp("kafe2.fit.histogram.model").HistModelFunction(normal)
+    elif k == "IndexedModelFunction":
+        o = imp("kafe2.fit.indexed.model").IndexedModelFunction(iline)
+    elif k == "ModelFunctionFormatter":
+        o = bm.ModelFunctionBase(line).formatter
+    elif k == "ParameterFormatter":
+        o = fm.ParameterFormatter("a", value=1.5, error=0.2, name="a", latex_name="\\alpha")
+    elif k == "CostFunction_Chi2":
+        o = cm.CostFunction_Chi2()
+    elif k == "CostFunction_NegLogLikelihood":
+        o = cm.CostFunction_NegLogLikelihood()
+    elif k == "CostFunction-user":
+        o = cm.CostFunction(custom_cost)
+    else:
+        o = fm.FunctionFormatter("f", arg_formatters=[fm.ParameterFormatter("a")])
+    tag = "class:" + ("CostFunction" if k.startswith("CostFunction") else k)
+    with Tmp() as d:
+        back, fail = roundtrip(o, type(o), d, tag)
+        if fail:
+            return fail
+        if k.endswith("ModelFunction") or k == "ModelFunctionBase":
+            if list(back.formatter.par_formatters[q].name for q in range(len(back.formatter.par_formatters))) != list(o.formatter.par_formatters[q].name for q in range(len(o.formatter.par_formatters))):
+                return {"got": "parameter names differ", "expected": "same", "witness_class": tag + ":names"}
+            a_ = (X, 1.3, 0.4) if k == "ModelFunctionBase" else ((X, 0.3, 1.1) if k == "HistModelFunction" else (1.3, 0.4))
+            return same(back(*a_), o(*a_), tag + ":values")
+        if k == "ParameterFormatter":
+            for att in ("name", "latex_name", "arg_name"):      # value / error are transient display state filled in by the owning fit: not part of the representation
+                if getattr(back, att) != getattr(o, att):
+                    return {"got": getattr(back, att), "expected": getattr(o, att), "witness_class": tag + ":" + att}
+        if k == "ModelFunctionFormatter":
+            if back.get_formatted(with_par_values=False) != o.get_formatted(with_par_values=False):
+                return {"got": back.get_formatted(with_par_values=False), "expected": o.get_formatted(with_par_values=False), "witness_class": tag + ":formatted"}
+
+
 # ------------------------------------------------------------------ save_state / load_state
 def gen_state(tier, seed):
     for kind in ("xy", "indexed", "hist", "unbinned", "custom"):
